@@ -26,8 +26,14 @@ pub fn plan(prop: &str, seed: u64, index: u64, thorough: bool) -> RunPlan {
     let mut rng = Rng::new(seed ^ 0x91A7);
     let kinds = client_kinds();
     let n = kinds.len() as u64;
-    let n_clients = if rng.chance(17, 20) { 2 } else { 3 };
-    let ops_per_client = match rng.below(10) {
+    let n_clients = if prop == "C16" {
+        if thorough && rng.chance(1, 10) { 3 } else { 2 }
+    } else if rng.chance(17, 20) {
+        2
+    } else {
+        3
+    };
+    let ops_per_client = if prop == "C16" { 1 } else { match rng.below(10) {
         0..=6 => 1,
         7 | 8 => 2,
         _ => {
@@ -37,7 +43,7 @@ pub fn plan(prop: &str, seed: u64, index: u64, thorough: bool) -> RunPlan {
                 2
             }
         }
-    };
+    } };
     // the pair catalogue is walked systematically by the run index; operands and schedules are drawn from the seed
     let mut forced = Vec::new();
     if rng.chance(17, 20) {
@@ -63,7 +69,6 @@ pub fn plan(prop: &str, seed: u64, index: u64, thorough: bool) -> RunPlan {
     let points: Vec<u64> = (0..npoints).map(|_| rng.range(1, 400)).collect();
     let prio: Vec<u32> = (0..n_clients).map(|_| rng.below(100) as u32 + 10).collect();
     let stall_ppm = if rng.chance(1, 2) { 0 } else { [5_000u32, 20_000, 60_000, 150_000][rng.below(4)] };
-    let _ = prop;
     RunPlan {
         n_clients,
         ops_per_client,
@@ -219,7 +224,14 @@ pub fn c16_violations(prep: &Prepared, res: &ConcResult, stats: &mut BTreeMap<St
     }
     culprits.sort();
     culprits.dedup();
-    let culprit_s = if culprits.is_empty() { format!("uninterrupted:{kinds_s}") } else { culprits.join("+") };
+    let culprit_s = if class == "return" {
+        if culprits.is_empty() { format!("unattributed:{kinds_s}") } else { culprits.join("+") }
+    } else {
+        // the final state is explained by no order: the finding is identified by the kinds of calls that ran concurrently;
+        // `after-timeout` marks runs in which a timed lock wait expired (a swallowed time-out can be the cause)
+        let t = if res.counters.timeouts > 0 { "after-timeout:" } else { "" };
+        format!("{t}{kinds_s}")
+    };
     let _ = &rel;
     let mut detail = format!("clients: {}", sc.clients.iter().map(|c| c.iter().map(|(_, o)| o.brief()).collect::<Vec<_>>().join("; ")).collect::<Vec<_>>().join(" || "));
     if let Some((fin, rets)) = &first_seq {
